@@ -8,6 +8,35 @@ mod c05;
 mod c18;
 mod util;
 
+/// Counting allocator: live heap bytes of the process (C17 measures the receiver with it).
+pub struct Counting;
+pub static LIVE: std::sync::atomic::AtomicIsize = std::sync::atomic::AtomicIsize::new(0);
+unsafe impl std::alloc::GlobalAlloc for Counting {
+    unsafe fn alloc(&self, l: std::alloc::Layout) -> *mut u8 {
+        let p = std::alloc::System.alloc(l);
+        if !p.is_null() {
+            LIVE.fetch_add(l.size() as isize, std::sync::atomic::Ordering::Relaxed);
+        }
+        p
+    }
+    unsafe fn dealloc(&self, p: *mut u8, l: std::alloc::Layout) {
+        LIVE.fetch_sub(l.size() as isize, std::sync::atomic::Ordering::Relaxed);
+        std::alloc::System.dealloc(p, l)
+    }
+    unsafe fn realloc(&self, p: *mut u8, l: std::alloc::Layout, new_size: usize) -> *mut u8 {
+        let q = std::alloc::System.realloc(p, l, new_size);
+        if !q.is_null() {
+            LIVE.fetch_add(new_size as isize - l.size() as isize, std::sync::atomic::Ordering::Relaxed);
+        }
+        q
+    }
+}
+#[global_allocator]
+static GLOBAL: Counting = Counting;
+pub fn live_bytes() -> isize {
+    LIVE.load(std::sync::atomic::Ordering::Relaxed)
+}
+
 fn main() {
     let argv: Vec<String> = std::env::args().collect();
     if argv.len() < 2 {
@@ -21,7 +50,8 @@ fn main() {
         "encode" => c08::run(&args, false),
         "source" => c08::run(&args, true),
         "sender" => c11::run(&args),
-        "recv" => c09::run(&args),
+        "recv" => c09::run(&args, false),
+        "memrecv" => c09::run(&args, true),
         "path" => c05::run(&args),
         "multi" => c18::run(&args),
         other => {
